@@ -5,7 +5,7 @@
    the objective of column j exceeds that of any z >= 0 by at most sum_k D_k (W[k,j] + z_k), D_k the residual bound of
    pass_kkt_residual (small step => small objective gap). *)
 From Coq Require Import List Arith Bool Reals Lra Lia Psatz.
-From TLV Require Import Base.Ops Base.PyList Base.Tensor Base.RSum Model.Nnls Proofs.NnlsProofs Proofs.NnlsProofsDescent Proofs.NnlsProofsConv.
+From TLV Require Import Base.Ops Base.PyList Base.Tensor Base.RSum Model.Nnls Proofs.NnlsProofs Proofs.NnlsProofsDescent Proofs.NnlsProofsConv Proofs.NnlsProofsFistaRate.
 Import ListNotations.
 Open Scope R_scope.
 
@@ -57,5 +57,29 @@ Proof.
   { intros i Hi. destruct (pass_kkt_residual UtM UtU r n o WG WB NZ Hden HG V i j Wf Hi Hj) as (A1 & A2 & A3).
     cbv zeta in A1, A2, A3. fold W in A1, A2, A3. rewrite E0 in A3. rewrite Rminus_0_r in A3. split; [exact A2 | exact A3]. }
   specialize (A HW). eapply Rle_trans; [exact A|]. apply Req_le. apply rsum_ext. intros k Hk. ring.
+Qed.
+
+(* ... hence, for a well-conditioned problem (mu |d|^2 <= d'Gd + 2 ridge |d|^2), the DISTANCE of W = pass(V) to a KKT point X is
+   controlled by the step: mu/2 |W[:,j] - X[:,j]|^2 <= sum_k D_k (W[k,j] + X[k,j]).  With the limit theorem (D_k -> 0 along the
+   iterates) and the monotone objective (bounded iterates) the HALS iterates approach the solution itself. *)
+Theorem pass_distance V j (X : mat) (mu : R) : wfm r n V -> (j < n)%nat ->
+  (forall d : nat -> R, mu * rsum r (fun i => (d i)^2) <= quad r (Gf UtU) d + 2 * l2of o * rsum r (fun i => (d i)^2)) ->
+  (forall i, (i < r)%nat -> 0 <= Mget X i j /\ 0 <= qp_grad r (Gf UtU) (bf UtM j) (l1of o) (l2of o) (colf X j) i /\
+                            Mget X i j * qp_grad r (Gf UtU) (bf UtM j) (l1of o) (l2of o) (colf X j) i = 0) ->
+  let W := hals_pass Rops UtM UtU n o V in
+  mu / 2 * rsum r (fun k => (Mget W k j - Mget X k j)^2) <= rsum r (fun k => resid UtU r W V k j * (Mget W k j + Mget X k j)).
+Proof.
+  intros Wf Hj Hmu XK W.
+  pose proof (pass_objective_gap V j (colf X j) Wf Hj (fun i Hi => proj1 (XK i Hi))) as G1. cbv zeta in G1. fold W in G1.
+  assert (XK' : forall i, (i < r)%nat -> 0 <= colf X j i /\ 0 <= qp_grad r (Gf UtU) (bf UtM j) (l1of o) (l2of o) (colf X j) i /\
+                 (colf X j i - 0) * qp_grad r (Gf UtU) (bf UtM j) (l1of o) (l2of o) (colf X j) i = 0).
+  { intros i Hi. destruct (XK i Hi) as (A & B & C). unfold colf at 1 3. rewrite Rminus_0_r. auto. }
+  assert (FW : forall i, (i < r)%nat -> 0 <= colf W j i).
+  { intros i Hi. unfold colf, W. rewrite <- E0. apply (pass_ge_eps UtM UtU r n o WG WB NZ V i j Wf Hi Hj). left. now apply HG. }
+  pose proof (kkt_strong_gap r (Gf UtU) (bf UtM j) (l1of o) (l2of o) 0 (colf X j) (colf W j) Gsym XK' FW) as SG.
+  pose proof (Hmu (fun i => colf W j i - colf X j i)) as M1. cbv beta in M1.
+  unfold colf in SG at 1 2 3 4. unfold colf in M1 at 1 2 3 4 5 6. unfold colf in G1 at 3.
+  change (fun k => resid UtU r W V k j * (Mget W k j + colf X j k)) with (fun k => resid UtU r W V k j * (Mget W k j + Mget X k j)) in G1.
+  lra.
 Qed.
 End PassGap.
